@@ -165,6 +165,21 @@ def gen_keys(rng, cfg, n):
     return keys
 
 
+def with_zero_fp_keys(ctx, rng, cfg, keys, p=0.2):
+    """with probability p (and only for the library's own hash, byte-sized fingerprints): the universe gets 1..3 keys whose raw fingerprint
+    is 0 - the value that marks an empty slot in the export format, so the library stores another one (it documents 1).  They form ONE
+    fingerprint class like any other colliding keys; keys with raw fingerprint 1 are left out so that the substitute meets no other key."""
+    if cfg.hf is not None or cfg.err_bits or rng.random() >= p:
+        return keys
+    cfg.finger_size = 1
+    zs = [k for k in (f"z{i}" for i in range(3000)) if cfg.raw_fp(k) == 0][: rng.randint(1, 3)]
+    keys = [k for k in keys if cfg.raw_fp(k) not in (0, 1)] + zs
+    rng.shuffle(keys)
+    if zs:
+        ctx.count("universes_with_zero_fingerprint_keys")
+    return keys
+
+
 def gen_history(rng, keys, n, p_remove=0.2, p_expand=0.05, p_reload=0.05, p_auto=0.03):
     ops = []
     for _ in range(n):
